@@ -755,8 +755,8 @@ def _indent_remover_ranges(res, rule, P, b):
     blk = T.peel(b["tree"])
     while blk.get("k") == "blockexpr":
         blk = blk["block"]
-    if blk.get("tail") is not None:
-        rets.append(T.peel(blk["tail"]))
+    if blk.get("tail") is not None and not (T.peel(blk["tail"]).get("k") == "loop" and not [x for x in T.nodes(T.peel(blk["tail"]), "break") if x.get("e") is not None]):
+        rets.append(T.peel(blk["tail"]))        # (a scan loop as the tail that is only left by `return`: its returns are rows of the table rule)
     # the scan variable: the local initialised from byte_pos and stepped in the loop
     scan = None
     seam = b["params"][2]["pat"].get("name") if len(b["params"]) == 3 else None     # format(&self, content, byte_pos)
